@@ -6,8 +6,8 @@ import json, os, re, shutil, subprocess, sys, time
 
 INC = "/verif/seeded_incoming"
 OUT = "/verif/seeded"
-WT = "/tmp/wt/verify"
-LOG = "/verif/work/verify_seeds.log"
+WT = os.environ.get("VERIFY_WT", "/tmp/wt/verify")
+LOG = os.environ.get("VERIFY_LOG", "/verif/work/verify_seeds.log")
 
 
 def sh(cmd, cwd=None, timeout=3000):
@@ -32,8 +32,11 @@ def main():
     head = sh("git rev-parse --short HEAD", cwd=WT)[1].strip()
     for prop in sorted(os.listdir(INC)):
         for n in sorted(os.listdir(os.path.join(INC, prop))):
-            sid = f"{prop.upper()}-{n}"
+            pid = "C" + re.sub(r"\D", "", prop[-2:]).zfill(2)
+            sid = f"{pid}-{n}" if not prop.startswith("r2") else f"{pid}-r2-{n}"
             if only and sid not in only and prop not in only:
+                continue
+            if os.path.exists(os.path.join(OUT, sid, "meta.json")) and not os.environ.get("FORCE"):
                 continue
             d = os.path.join(INC, prop, n)
             if not os.path.exists(os.path.join(d, "patch.diff")):
@@ -61,6 +64,24 @@ def main():
             # (1) suite with the change (unit + integration tests; doctests use 1 ms wall-clock limits and are not part of the 124)
             rc, o = sh("CARGO_NET_OFFLINE=true cargo test --workspace --offline --no-fail-fast --lib --tests 2>&1 | grep -E '^test result|FAILED|panicked|error(\\[|:)' | head -30", cwd=WT)
             failed = [l for l in o.splitlines() if "FAILED" in l or l.startswith("error")]
+            # several unit tests authorize with the default 1 ms time limit and fail with RunLimit(Timeout) on a loaded machine:
+            # a failed test that passes when re-run alone (3 tries) is a timing flake, not an effect of the change
+            names = re.findall(r"^test (\S+) \.\.\. FAILED", o, flags=re.M)
+            compile_err = any(l.startswith("error[") or l.startswith("error: could not compile") for l in failed)
+            if names and not compile_err:
+                still = []
+                for nm in names:
+                    okk = False
+                    for _ in range(3):
+                        rc2, o2 = sh(f"CARGO_NET_OFFLINE=true cargo test --offline -p biscuit-auth --lib -- --exact {nm} 2>&1 | grep -E '^test result' | head -1", cwd=WT)
+                        if " 1 passed" in o2:
+                            okk = True
+                            break
+                    if not okk:
+                        still.append(nm)
+                if not still:
+                    res["timing_flakes_rerun_ok"] = names
+                    failed = []
             flaky_only = all("token::tests::basic" in l for l in failed if "FAILED" in l and "test result" not in l) and not any(l.startswith("error") for l in failed)
             res["suite_with_change"] = "green" if not failed else ("green (known-flaky token::tests::basic only)" if flaky_only and all("test result" in l or "tests::basic" in l for l in failed) else "RED: " + " | ".join(failed[:4]))
             # (2) demo with the change
@@ -84,10 +105,10 @@ def main():
                 with open(os.path.join(od, "patch.diff"), "w") as fh:
                     fh.write(ported)
                 shutil.copy(os.path.join(d, "demo.rs"), os.path.join(od, "demo.rs"))
-                m = {"id": sid, "property": prop.upper(), "summary": meta.get("summary"), "needs_to_manifest": meta.get("needs_to_manifest"), "files_touched": meta.get("files_touched"), "demo_location": loc,
+                m = {"id": sid, "property": pid, "summary": meta.get("summary"), "needs_to_manifest": meta.get("needs_to_manifest"), "files_touched": meta.get("files_touched"), "demo_location": loc,
                      "origin": "written by an independent sub-agent that saw only the property text and a scratch worktree; patch re-based (git diff) onto the /repo HEAD it was confirmed against",
                      "confirmed_against": head,
-                     "what_i_ran": ["git apply patch.diff (scratch worktree outside /repo and /verif)", "cargo test --workspace --offline --no-fail-fast --lib --tests  -> " + res["suite_with_change"], f"cp demo.rs {loc}; cargo test --offline -p {crate} --test seed_demo  -> with change: {res['demo_with_change']}", f"git checkout -- . ; same demo -> without change: {res['demo_without_change']}"]}
+                     "what_i_ran": ["git apply patch.diff (scratch worktree outside /repo and /verif)", "cargo test --workspace --offline --no-fail-fast --lib --tests  -> " + res["suite_with_change"] + (f" (tests {res['timing_flakes_rerun_ok']} failed with the 1 ms default time limit under load and passed when re-run alone)" if res.get("timing_flakes_rerun_ok") else ""), f"cp demo.rs {loc}; cargo test --offline -p {crate} --test seed_demo  -> with change: {res['demo_with_change']}", f"git checkout -- . ; same demo -> without change: {res['demo_without_change']}"]}
                 json.dump(m, open(os.path.join(od, "meta.json"), "w"), indent=1)
     print("done")
 
